@@ -144,15 +144,16 @@ type op struct {
 	off   uint64 // absolute offset of a positioned call
 	n     int    // bytes
 	alias int    // 0 dst and src disjoint | 1 dst == src | 2 dst longer than src
-	hi    bool   // guard-page placement of dst (src gets the opposite one)
+	dp    place  // placement of dst in its guard region (guard-abutting or misaligned start)
+	sp    place  // placement of src, always of another kind and offset than dst's
 	cls   string // how the offset was chosen (class key component)
 }
 
 func (o op) String() string {
 	al := [...]string{"", " inplace", " longdst"}[o.alias]
-	pl := "lo"
-	if o.hi {
-		pl = "hi"
+	pl := fmt.Sprintf("dst@%v src@%v", o.dp, o.sp)
+	if o.alias == 1 {
+		pl = fmt.Sprintf("buf@%v", o.sp)
 	}
 	if o.at {
 		return fmt.Sprintf("At(off=%d,len=%d %s%s %s)", o.off, o.n, pl, al, o.cls)
@@ -289,6 +290,7 @@ func (h *history) do(o op, r *mon.Rand) {
 			}
 		}
 	}
+	o.sp = o.sp.apart(o.dp)
 	h.log = append(h.log, o.String())
 	kind := "Seq"
 	if o.at {
@@ -299,16 +301,21 @@ func (h *history) do(o op, r *mon.Rand) {
 	if o.at {
 		c.Class("eea/offset-choice/%s/b%d/%s", fam, h.bucket, o.cls)
 	}
+	if o.alias == 1 {
+		c.Class("eea/place/inplace@%v", o.sp)
+	} else {
+		c.Class("eea/place/dst@%v/src@%v", o.dp, o.sp)
+	}
 
 	// buffers
-	src := gs.Side(o.n, !o.hi)
+	src := o.sp.buf(gs, o.n)
 	r.Fill(src)
 	orig := append([]byte(nil), src...)
 	var dst []byte
 	extra := 0
 	switch o.alias {
 	case 0:
-		dst = gd.Side(o.n, o.hi)
+		dst = o.dp.buf(gd, o.n)
 		for i := range dst {
 			dst[i] = 0x5c
 		}
@@ -316,7 +323,7 @@ func (h *history) do(o op, r *mon.Rand) {
 		dst = src
 	case 2:
 		extra = 1 + r.Intn(9)
-		dst = gd.Side(o.n+extra, o.hi)
+		dst = o.dp.buf(gd, o.n+extra)
 		for i := range dst {
 			dst[i] = 0x5c
 		}
@@ -491,7 +498,7 @@ func eeaWalk(x *mon.Ctx) {
 		}
 		nops := 1 + r.Intn(40)
 		for k := 0; k < nops && !h.dead; k++ {
-			o := op{n: pickLen(r), hi: r.Bool()}
+			o := op{n: pickLen(r), dp: place(r.Intn(nPlaces)), sp: place(r.Intn(nPlaces))}
 			switch r.Intn(8) {
 			case 0, 1:
 				o.alias = 1
@@ -623,12 +630,12 @@ func eeaGrid(x *mon.Ctx) {
 				if h.dead {
 					break
 				}
-				hi := (a+ti)%2 == 0
+				pl := place((a + 3*ti) % nPlaces)
 				// bring the object to sequential position a the natural way: rewind, then one sequential call
-				h.do(op{at: true, off: 0, n: 0, hi: hi, cls: "rewind"}, r)
-				h.do(op{n: a, hi: hi, alias: (a + ti) % 3 % 2}, r)
-				h.do(op{at: true, off: t.off, n: lens[(a+ti)%len(lens)], hi: !hi, cls: t.cls}, r)
-				h.do(op{n: 3 + ti%3, hi: hi}, r)
+				h.do(op{at: true, off: 0, n: 0, dp: pl, sp: pl.next(1), cls: "rewind"}, r)
+				h.do(op{n: a, dp: pl.next(1), sp: pl.next(2), alias: (a + ti) % 3 % 2}, r)
+				h.do(op{at: true, off: t.off, n: lens[(a+ti)%len(lens)], dp: pl.next(2), sp: pl.next(3), cls: t.cls}, r)
+				h.do(op{n: 3 + ti%3, dp: pl.next(3), sp: pl.next(4)}, r)
 			}
 			c.End()
 		}
